@@ -17,5 +17,6 @@ run /verif/selftest/benign/b3_signaling_server_floodsub_refactor.py C22 C23 C24 
 run /verif/selftest/benign/b4_transport_handler_refactor.py C03 C04 C05 C06
 run /verif/selftest/benign/b5_decrypt_refactor.py C12 C40 C26 C18
 run /verif/selftest/benign/b6_round3_alternatives.py C06 C08 C11 C13 C14 C22 C23 C25 C27 C28 C29 C30 C32
+run /verif/selftest/benign/b7_shared_helpers.py C01 C02 C03 C04 C05 C19 C20 C27 C28
 [ $rc -eq 0 ] && echo "benign refactors: all verdicts unchanged"
 exit $rc
